@@ -331,6 +331,27 @@ def check_tree(run, rng, tree, engine: str, case_id: Any, share: Optional[bool] 
                 run.violation(f'{label} -> parse({how}) did not reproduce the tree: {err or diff}',
                               witness={'text': text, 'diff': diff, 'error': err}, case=case, engine=engine,
                               key=classify(tree, diff, err))
+    # history: the tree parsed from the text is edited in place and dropped, then the same text is parsed again: the second
+    # tree is what the text says (nothing handed out by the first parse is shared with the next)
+    if isinstance(case_id, int) and case_id % 3 == 0:
+        try:
+            first = Keyvalues.parse(texts[0][1])
+            for node in list(first.iter_tree(blocks=True)) if first.has_children() else []:
+                if node is first:
+                    continue
+                node.name = (node.real_name or '') + '~edited'
+                if node.has_children():
+                    node.append(Keyvalues('added', 'x'))
+                else:
+                    node.value = node.value + '~'
+            second = snapshot(Keyvalues.parse(texts[0][1]))
+            d_second = first_diff(want if tree[0] is None else (None, [want]), second)
+            run.count('texts_parsed_again_after_the_first_tree_was_edited')
+            if d_second is not None:
+                run.violation(f'parsing the same text again, after the first parsed tree was edited, gives another tree: {d_second}', case=case, engine=engine,
+                              key='parse-depends-on-earlier-parse')
+        except Exception as exc:
+            run.violation(f'parsing the same text a second time raised {exc!r}', case=case, engine=engine, key='parse-depends-on-earlier-parse')
     # history: the tree is edited in place after it has been serialised (every renaming / re-valuing method), then
     # serialised and parsed again - the text must describe the tree as it is NOW
     nodes = [n for n in kv.iter_tree(blocks=True)] if kv.has_children() else []
@@ -418,7 +439,7 @@ def main(run, shard=(0, 1)) -> None:
     probe.report(run)
     probe.check_reached(run)
     run.require('serialise_calls', 'parse_calls', 'real_file_deliveries', 'roundtrips_after_edit', 'trees_with_escape_char_in_block_name',
-                'trees_with_one_object_in_two_places', 'prebuilt_tokenizer_deliveries', 'serialise_into_sinks', 'parses_after_an_abandoned_tokenizer', 'deliveries_with_translated_line_ends')
+                'trees_with_one_object_in_two_places', 'prebuilt_tokenizer_deliveries', 'serialise_into_sinks', 'parses_after_an_abandoned_tokenizer', 'deliveries_with_translated_line_ends', 'texts_parsed_again_after_the_first_tree_was_edited')
 
 
 def replay(run, data) -> None:
